@@ -648,11 +648,13 @@ class Node:
             # DWA, is disconnecting or has been closed in the meantime
             return
         conn.state = PEER_READY
-        for app_peers in self._peer_routes.values():
-            for app, peers in app_peers.items():
+        # applications and peers may be added while the node runs: the tables
+        # are walked through snapshots
+        for app_peers in list(self._peer_routes.values()):
+            for app, peers in list(app_peers.items()):
                 if not isinstance(app, Application):
                     continue
-                for peer in peers:
+                for peer in list(peers):
                     if peer.connection == conn:
                         app.is_ready.set()
                         break
@@ -1078,7 +1080,7 @@ class Node:
             return
 
         receiving_app: Application | None = None
-        for app, peers in self._peer_routes[realm_name].items():
+        for app, peers in list(self._peer_routes[realm_name].items()):
             if not isinstance(app, Application):
                 continue
             if app.application_id == app_id:
@@ -1150,7 +1152,7 @@ class Node:
     def _reconnect_peers(self):
         if self._stopping:
             return
-        for peer in self.peers.values():
+        for peer in list(self.peers.values()):
             if not peer.persistent:
                 continue
             if peer.connection:
@@ -1645,8 +1647,8 @@ class Node:
         # Check if this was the last available peer for an app and clear app
         # ready flag if so, resulting in `wait_for_ready` to block again.
         app_list = {}
-        for app_peers in self._peer_routes.values():
-            for app, peers in app_peers.items():
+        for app_peers in list(self._peer_routes.values()):
+            for app, peers in list(app_peers.items()):
                 app_list.setdefault(app, [])
                 app_list[app] += peers
 
@@ -1817,7 +1819,7 @@ class Node:
 
         peer_list = None
         if realm_name in self._peer_routes:
-            for route_app, peers in self._peer_routes[realm_name].items():
+            for route_app, peers in list(self._peer_routes[realm_name].items()):
                 if app == route_app:
                     peer_list = peers
                     break
@@ -1923,7 +1925,7 @@ class Node:
         self._stat_collect_thread.start()
         self._connection_thread.start()
 
-        for peer in self.peers.values():
+        for peer in list(self.peers.values()):
             if peer.persistent:
                 self.logger.info(f"auto-connecting to {peer.node_name}")
                 self._connect_to_peer(peer)
